@@ -39,6 +39,7 @@ class EngineError(Exception):
 
 
 _CUR = None  # the Explorer currently running a path (None => engine off)
+PATH_HOOKS = []  # callables run at the start of every path (e.g. clearing memo caches of the code under test)
 
 
 def cur():
@@ -1073,6 +1074,8 @@ class Explorer:
                 self.solver.push()
                 if asserted:
                     self.solver.add(*asserted)
+                for hook in PATH_HOOKS:
+                    hook()
                 _CUR = self
                 self.paths += 1
                 try:
@@ -1204,6 +1207,8 @@ def replay(fn, inputs):
     Returns (reproduced_violation_or_None, Concrete)."""
     global _CUR
     prev, _CUR = _CUR, None
+    for hook in PATH_HOOKS:
+        hook()
     cx = Concrete(inputs)
     try:
         try:
